@@ -168,7 +168,7 @@ def _account(run, c, res, spec_funcs, instantiate):
     if not obs and not res["generation_error"]:
         raise RuntimeError("contract %s generated zero obligations (vacuous)" % q)
     scaffold_bad = [o for o in obs if o["scaffold"] and o["status"] != "discharged"]
-    verdict = "proved"
+    verdict = "degraded" if res["generation_error"] else "proved"
     for o in obs:
         cov["obligations"] += 1
         cov["solver_time_s"] += o.get("time_s", 0.0)
